@@ -51,6 +51,7 @@ MODEL_SETS = {
     "uniform": ["illum_uniform", "conv", "coll"],
     "shaped": ["illum_rect", "illum_ellip", "conv", "coll"],
     "image": ["load_image", "conv", "coll"],
+    "image_adu": ["load_image_adu", "conv", "coll"],
     "charge": ["load_charge", "coll"],
     "stripes": ["stripe", "conv", "coll"],
     "all": ["illum_uniform", "illum_rect", "load_image", "stripe", "conv", "load_charge", "coll"],
@@ -90,13 +91,23 @@ MODS = ("pyxel.exposure.readout", "pyxel.detectors.readout_properties", "pyxel.m
         "pyxel.models.charge_collection.collection") + DATA_MODULES
 
 
-CONCRETE_SCALES = {"quick": ("all", "charge", "image"), "thorough": ("all", "charge", "image"), "thorough_symbolic": ("all",)}
+CONCRETE_SCALES = {"quick": ("all", "charge", "image", "image_adu"), "thorough": ("all", "charge", "image", "image_adu"), "thorough_symbolic": ("all",)}
 TIER = {"v": "quick"}
+
+
+CHAR = {"quantum_efficiency": 0.5, "charge_to_volt_conversion": 2.0**-14, "pre_amplification": 4.0, "adc_bit_resolution": 16, "adc_voltage_range": (0.0, 8.0)}
+
+
+def _adu_factor():
+    """(adc multiplier, system gain) of the harness detector, as the loader computes them."""
+    cht = make_ccd(*SHAPE, **CHAR).characteristics
+    return (2**cht.adc_bit_resolution / 2**16, cht.system_gain)
 
 
 def _params(models=None):
     """Symbolic model parameters shared by the schedules of one obligation."""
     P = _params_sym()
+    P["adu_factor"] = _adu_factor()
     if models in CONCRETE_SCALES[TIER["v"]]:
         # the full pipeline multiplies many symbolic factors: time scales and the multiplier are concrete here
         # (they are symbolic in the per-model sets), levels / file contents / qe / schedule stay symbolic
@@ -126,6 +137,8 @@ def _pipeline(models, P):
         "illum_rect": ("photon_collection", "pyxel.models.photon_collection.illumination", {"level": P["level_r"], "option": "rectangular", "object_size": [1, 2], "object_center": [1, 1], "time_scale": 1.0}),
         "illum_ellip": ("photon_collection", "pyxel.models.photon_collection.illumination", {"level": P["level_e"], "option": "elliptic", "object_size": [2, 2], "object_center": [1, 1], "time_scale": 2.0}),
         "load_image": ("photon_collection", "pyxel.models.photon_collection.load_image", {"image_file": "img.npy", "multiplier": P["mult"], "time_scale": P["ts_i"]}),
+        # the same loader reading the file as ADU of a 16-bit camera (photon-transfer conversion before the time scaling)
+        "load_image_adu": ("photon_collection", "pyxel.models.photon_collection.load_image", {"image_file": "img.npy", "multiplier": P["mult"], "time_scale": P["ts_i"], "convert_to_photons": True, "bit_resolution": 16}),
         "stripe": ("photon_collection", "pyxel.models.photon_collection.stripe_pattern", {"period": 2, "level": P["level_s"], "angle": 0, "startwith": 0, "time_scale": 1.0}),
         "conv": ("charge_generation", "pyxel.models.charge_generation.simple_conversion", {"quantum_efficiency": P["qe"], "binomial_sampling": False}),
         "load_charge": ("charge_generation", "pyxel.models.charge_generation.load_charge", {"filename": "chg.npy", "time_scale": P["ts_c"]}),
@@ -161,6 +174,8 @@ def _rate(models, P, xp_one=None):
             ph = ph + P["level_e"] * ellip[i] / 2.0
         if "load_image" in ms:
             ph = ph + P["image"].elems()[i] * P["mult"] / P["ts_i"]
+        if "load_image_adu" in ms:
+            ph = ph + P["image"].elems()[i] * P["adu_factor"][0] / P["adu_factor"][1] * P["mult"] / P["ts_i"]
         if "stripe" in ms:
             ph = ph + P["level_s"] * stripe[i]
         c = ph * P["qe"] if "conv" in ms else 0
@@ -188,7 +203,7 @@ def _run(models, P, times, start, non_destructive):
         p.attr("pyxel.exposure.exposure", "_extract_datatree_2d", lambda detector: (frames.append(detector.pixel.array.copy()), xr.DataTree())[1], "records the pixel frame, returns an empty DataTree")
         p.attr("pyxel.models.photon_collection.load_image", "load_cropped_and_aligned_image", loader, "arbitrary file content")
         p.attr("pyxel.models.charge_generation.load_charge", "load_cropped_and_aligned_image", loader, "arbitrary file content")
-        det = make_ccd(*SHAPE)
+        det = make_ccd(*SHAPE, **CHAR)
         proc = Processor(detector=det, pipeline=_pipeline(models, P))
         ro = Readout(times=times, start_time=start, non_destructive=non_destructive)
         ex.run_pipeline(processor=proc, readout=ro, outputs=None, debug=False, with_inherited_coords=False)
@@ -259,7 +274,7 @@ def _concrete_final(models, vals, times, start, non_destructive):
                 for k in ("image_file", "filename"):
                     if k in m.arguments:
                         m.arguments[k] = os.path.join(tmp, m.arguments[k])
-        det = make_ccd(*SHAPE)
+        det = make_ccd(*SHAPE, **CHAR)
         dt = pyxel.run_mode(mode=Exposure(readout=Readout(times=times, start_time=start, non_destructive=non_destructive)), detector=det, pipeline=pipe)
         return np.asarray(dt["pixel"])[-1].ravel().tolist()
     finally:
@@ -271,6 +286,7 @@ def _concrete_final(models, vals, times, start, non_destructive):
 def _concrete_vals(inp, models=None):
     g = lambda k, d=1.0: float(inp.get(k, d))  # noqa: E731
     v = _concrete_vals0(g)
+    v["adu_factor"] = _adu_factor()
     if models in CONCRETE_SCALES[TIER["v"]]:
         v.update({"ts_u": 2.0, "ts_i": 0.5, "ts_c": 4.0, "mult": 3.0})
     return v
@@ -317,7 +333,7 @@ def dark_current_replay(tier, seed, n):
                                      charge_generation=[ModelFunction(func="pyxel.models.charge_generation.dark_current", name="dc",
                                                                       arguments={"figure_of_merit": 1.0, "temporal_noise": False})],
                                      charge_collection=[ModelFunction(func="pyxel.models.charge_collection.simple_collection", name="coll")])
-            det = make_ccd(*SHAPE)
+            det = make_ccd(*SHAPE, **CHAR)
             det.environment._temperature = 250.0
             dt = pyxel.run_mode(mode=Exposure(readout=Readout(times=ts, start_time=start, non_destructive=True)), detector=det, pipeline=pipe)
             return np.asarray(dt["pixel"])[-1]
